@@ -126,10 +126,23 @@ def corrupt(rng, t):
     return rng.choice(table[k])
 
 
+def corpus():
+    """minimised past failures (corpus/C05/*.json, each {"case": ...}), replayed first in every run"""
+    import json
+
+    d = os.path.join(os.path.dirname(os.path.dirname(os.path.dirname(os.path.abspath(__file__)))), "corpus", "C05")
+    out = []
+    if os.path.isdir(d):
+        for f in sorted(os.listdir(d)):
+            if f.endswith(".json"):
+                out.append(json.load(open(os.path.join(d, f)))["case"])
+    return out
+
+
 def gen(tier, seed):
     rng = random.Random(f"C05-{seed}")
     thorough = tier == "thorough"
-    cases = []
+    cases = corpus()
     namer = sc.Namer()
 
     def top(fields_t, kind, required=False, values=None, opts=None):
@@ -239,7 +252,12 @@ def gen(tier, seed):
         z = ["int", str(rng.choice([10 ** 400, -(10 ** 400), 2 ** 1024, 2 ** 1024 - 2 ** 970, 2 ** 1024 - 2 ** 970 - 1]))]
         fv = {"int": z, "list": ["list", [z]], "dict": ["dict", False, [[["str", "k"], z]]], "opt": z}[ft[0]]
         T = top([ft], kind, required=True)
-        cases.append(dict(ty=T, val=["dc", kind, T[2], [["f0", dict(sc.PLAIN_META), fv]]], via=VIAS[i % 3], stream="hugeint"))
+        val = ["dc", kind, T[2], [["f0", dict(sc.PLAIN_META), fv]]]
+        cases.append(dict(ty=T, val=val, via=VIAS[i % len(VIAS)], stream="hugeint"))
+        # the same instance from a lenient raw dict: the huge int as a decimal string (float("1e400") is inf, no exception)
+        zs = ["str", z[1]]
+        raw = {"int": zs, "list": ["list", [zs]], "dict": ["dict", False, [[["str", "k"], zs]]], "opt": zs}[ft[0]]
+        cases.append(dict(ty=T, val=val, via=["raw", ["dict", False, [[["str", "f0"], raw]]], True], stream="hugeint"))
     return cases
 
 
